@@ -51,6 +51,7 @@ type FuncContract struct {
 	Results  []string
 	Verify   bool // generate obligations for this function
 	Notes    []string
+	Dyn      map[string]string
 	Opaque   []string
 	Use      []string
 }
@@ -369,6 +370,17 @@ func (db *ContractDB) loadFile(file, pkgPath string) error {
 				}
 			case "safety":
 				cur.Safety = append(cur.Safety, strings.Fields(rest)...)
+			case "dyn":
+				// dyn <selector> noeffect|pure : policy for a dynamic call in this function
+				fs := strings.Fields(rest)
+				if len(fs) != 2 || (fs[1] != "noeffect" && fs[1] != "pure") {
+					return fail("dyn <selector> noeffect|pure")
+				}
+				if cur.Dyn == nil {
+					cur.Dyn = map[string]string{}
+				}
+				cur.Dyn[fs[0]] = fs[1]
+				db.trusted = append(db.trusted, fmt.Sprintf("dynamic call %s in %s assumed %s", fs[0], cur.Key, fs[1]))
 			case "opaque":
 				cur.Opaque = append(cur.Opaque, strings.Fields(strings.ReplaceAll(rest, ",", " "))...)
 			case "use":
